@@ -12,7 +12,7 @@ From Coq Require Import List NArith Bool String.
 From KV.gen Require Import Blocking.
 From KV Require Import BlockView ReplSession ReplSessionProofs.
 From KV Require LockDiscipline ReplLocksFacts.
-From KV.gen Require Locks.
+From KV.gen Require Locks NilChecks.
 Import ListNotations.
 Open Scope N_scope.
 
@@ -107,3 +107,13 @@ Print Assumptions C15_replication_lock_order.
 Theorem C15_replication_locks_released_exactly_once : ReplLocksFacts.repl_lock_exits = [].
 Proof. exact ReplLocksFacts.repl_locks_released_exactly_once. Qed.
 Print Assumptions C15_replication_locks_released_exactly_once.
+
+(* no result of a look-up function of pkg/replication (nil = "no such session any more") is used
+   before it is compared with nil: a Nack or Ack that races with the removal of its session is
+   answered, it does not end the primary with a nil dereference *)
+Theorem C15_replication_lookups_tested_before_use :
+  ReplLocksFacts.repl_nil_unchecked = [] /\
+  existsb (fun r => String.eqb (fst r) "pkg/replication" && String.eqb (snd r) "Primary.getSession")
+          NilChecks.lookup_functions = true.
+Proof. exact (conj ReplLocksFacts.repl_lookups_tested_before_use ReplLocksFacts.repl_lookups_nonvacuous). Qed.
+Print Assumptions C15_replication_lookups_tested_before_use.
